@@ -54,6 +54,16 @@ def cases(tier, seed):
                 out.append(dict(kind="statio", dim=2, n=n_, b=b_, nb=4 * nf, bb=bb, seed=k, draws=d))
                 if tier != "quick" or (nf + bb) % 2:
                     out.append(dict(kind="nonstatio", dim=2, n=n_, b=b_, nb=4 * nf, bb=bb, nt=2, bt=1, seed=k, draws=d))
+    # the same histories with ONE compiled get_batch (what jinns.solve runs: traced int32 cursors and conditions), every batch-size
+    # relation between the time and the space axis
+    for (n, b, nt, bt) in ((4, 1, 6, 3), (5, 2, 4, 1), (3, 3, 7, 2), (6, 1, 6, 6), (4, 4, 5, 2)):
+        k = sd + 7000 + 10 * n + bt
+        d = max(draws(n, b), draws(nt, bt)) + 1
+        out.append(dict(kind="nonstatio", dim=1, n=n, b=b, nb=None, bb=None, nt=nt, bt=bt, seed=k, draws=d, jit=True))
+        out.append(dict(kind="nonstatio", dim=2, n=n, b=b, nb=8, bb=[1, 2, 2, 1, 2][n % 5], nt=nt, bt=bt, seed=k, draws=d, jit=True))
+        out.append(dict(kind="statio", dim=2, n=n, b=b, nb=12, bb=[3, 1, 2][n % 3], seed=k, draws=d, jit=True))
+        out.append(dict(kind="ode", n=nt, b=bt, seed=k, draws=draws(nt, bt) + 1, jit=True))
+        out.append(dict(kind="ode", n=nt, b=bt, rar=True, nstart=max(1, nt - 2), seed=k, draws=draws(nt, bt) + 1, jit=True))
     # stores with an active RAR probability mask (active prefix nstart < n)
     M = 4 if tier == "quick" else 6
     for n in range(2, M + 1):
